@@ -176,51 +176,77 @@ fn pairs(tier: &str) -> (Vec<Pair>, u64, u64) {
 /// search plus one fork per poll. The child is cut at its poll, unwinds, and is judged here:
 /// no cache write may be observed after the cut and the cache contents must equal the snapshot
 /// taken at the cut. Polls whose child fails are re-run the classical way (StopAt) for the report.
-fn fork_sweep(w: &Worker, p: &SPos, depth: u8) {
+fn fork_sweep(w: &Worker, p: &SPos, depth: u8, kind: Kind, stride: u64, phase: u64) {
     let Ok((board, _, _)) = searchrun::open(p.fen, &spos::hist(p)) else { return };
     let opts = Opts { clear_cache: true, observe: true, neutral: false };
-    let case = Kind::Stop.case(p, depth, 0);
+    let case = kind.case(p, depth, 0);
     let base = searchrun::run(&board, &case, &opts);
-    if base.panicked.is_some() || base.running_calls == 0 {
+    let k_max = if kind == Kind::Stop { base.running_calls } else { base.clock_calls };
+    if base.panicked.is_some() || k_max == 0 {
         return;
     }
-    let k_max = base.running_calls;
     let per = k_max.div_ceil(w.nshards as u64);
     let lo = 1 + per * w.shard as u64;
     let hi = (lo + per - 1).min(k_max);
     if lo > hi {
         return;
     }
+    crate::rce_verif::fork_at_clock(kind != Kind::Stop);
+    crate::rce_verif::fork_stride(stride, phase);
     crate::rce_verif::fork_range(lo, hi);
-    let out = searchrun::run(&board, &case, &opts);
-    if let Some((_k, writes_at_cut)) = crate::rce_verif::fork_child() {
-        let late_write = out.writes.len() as u64 > writes_at_cut;
-        let changed = out.cache_at_cut.as_ref().is_some_and(|c| *c != out.cache_at_end);
-        crate::rce_verif::fork_exit(i32::from(late_write || changed || out.panicked.is_some()));
+    // (the forking run lasts as long as all its children together: generous watchdog allowance)
+    let out = searchrun::run_within(&board, &case, &opts, std::time::Duration::from_secs(3 * 3600));
+    if crate::rce_verif::fork_child().is_some() {
+        // the child: it was cut at its poll; its writes must be a prefix of the uninterrupted
+        // search's (inherited from before the fork), and for a stop nothing at all may follow
+        let bad = judge_kind(&base.writes, &out, kind == Kind::Stop).is_some() || out.panicked.is_some();
+        crate::rce_verif::fork_exit(i32::from(bad));
     }
     let (done, failed) = crate::rce_verif::fork_results();
     crate::rce_verif::fork_range(0, 0);
-    if crate::rce_verif::fork_errors() > 0 || done != hi - lo + 1 {
-        w.info("machinery", &format!("fork sweep of {} depth {depth} incomplete: {done} of {} children ran, {} fork() failures", p.fen, hi - lo + 1, crate::rce_verif::fork_errors()));
+    crate::rce_verif::fork_at_clock(false);
+    crate::rce_verif::fork_stride(1, 0);
+    let expected = (lo..=hi).filter(|n| n % stride == phase % stride).count() as u64;
+    if failed.is_empty() && (crate::rce_verif::fork_errors() > 0 || done != expected) {
+        w.info("machinery", &format!("fork sweep of {} depth {depth} incomplete: {done} of {} children ran, {} fork() failures", p.fen, expected, crate::rce_verif::fork_errors()));
     }
     w.count("cut_runs", done);
-    w.count("cut_runs:stop-by-fork", done);
+    w.count(&format!("cut_runs:{}-by-fork", kind.name()), done);
     w.count("fork_sweeps", 1);
     w.max("largest_T_fork_sweep", base.nodes);
     if w.shard == 0 {
-        w.info(&format!("fork:{}:d{depth}", p.name), &format!("T={} polls={k_max}", base.nodes));
+        w.info(&format!("fork:{}:d{depth}:{}", p.name, kind.name()), &format!("T={} cut points={k_max} stride={stride}", base.nodes));
     }
     for k in failed.into_iter().take(5) {
-        let c = Kind::Stop.case(p, depth, k);
+        let c = kind.case(p, depth, k);
         let again = searchrun::run(&board, &c, &opts);
-        let why = judge(&base.writes, &again).unwrap_or_else(|| "the forked child reported a violation that the re-execution does not show".to_string());
+        let why = judge_kind(&base.writes, &again, kind == Kind::Stop).unwrap_or_else(|| "the forked child reported a violation that the re-execution does not show".to_string());
         let mut r = c.json();
         if let J::Obj(v) = &mut r {
-            v.push(("cut_kind".into(), s("stop")));
+            v.push(("cut_kind".into(), s(kind.name())));
             v.push(("cut_point".into(), i(k)));
         }
-        w.violation(&format!("{}|stop-fork|d{depth}|{k}", p.name), &format!("{} depth {depth} stop at flag poll {k}/{k_max}: {why}", p.fen), &r);
+        w.violation(&format!("{}|{}-fork|d{depth}|{k}", p.name, kind.name()), &format!("{} depth {depth} {} cut point {k}/{k_max}: {why}", p.fen, kind.name()), &r);
     }
+}
+
+pub fn fork_bench(depth: u8) -> u64 {
+    let p = &P9[1];
+    let (board, _, _) = searchrun::open(p.fen, &spos::hist(p)).unwrap();
+    let opts = Opts { clear_cache: true, observe: true, neutral: false };
+    let case = Kind::Stop.case(p, depth, 0);
+    let base = searchrun::run(&board, &case, &opts);
+    crate::rce_verif::fork_at_clock(false);
+    crate::rce_verif::fork_stride(1, 0);
+    crate::rce_verif::fork_range(1, base.running_calls);
+    let out = searchrun::run_within(&board, &case, &opts, std::time::Duration::from_secs(3600));
+    if crate::rce_verif::fork_child().is_some() {
+        let bad = judge_kind(&base.writes, &out, true).is_some();
+        crate::rce_verif::fork_exit(i32::from(bad));
+    }
+    let (done, _) = crate::rce_verif::fork_results();
+    crate::rce_verif::fork_range(0, 0);
+    done
 }
 
 pub fn worker(args: &Args, w: &Worker) -> i32 {
@@ -335,22 +361,32 @@ pub fn worker(args: &Args, w: &Worker) -> i32 {
             }
         }
     }
-    // large searches: every stop point through fork-based checkpointing
+    // large searches: every cut point through fork-based checkpointing
     let thorough = args.tier == "thorough";
-    for p in P9.iter().take(if thorough { P9.len() } else { 8 }) {
+    for p in P9.iter().take(if thorough { P9.len() } else { 6 }) {
         let maxd: u8 = if thorough { 6 } else { 5 };
         for depth in 3..=maxd {
             // size of the uninterrupted search decides whether this pair is swept
             let Ok((board, _, _)) = searchrun::open(p.fen, &spos::hist(p)) else { continue };
             let probe = searchrun::run(&board, &Kind::Stop.case(p, depth, 0), &Opts { clear_cache: true, observe: false, neutral: false });
-            let cap = if thorough { 1_500_000 } else { 30_000 };
+            let big = p.name == "kiwipete";
+            let cap = if thorough { 1_500_000 } else if big { 150_000 } else { 12_000 };
             if probe.panicked.is_some() || probe.nodes > cap {
                 break;
             }
             if probe.nodes <= cap_other {
                 continue; // already enumerated the classical way above
             }
-            fork_sweep(w, p, depth);
+            if !thorough && probe.nodes > 12_000 {
+                // quick tier, large search: every second poll as a stop, every other limit check as
+                // a clock expiry (the thorough tier takes every one for all three kinds)
+                fork_sweep(w, p, depth, Kind::Stop, 2, 0);
+                fork_sweep(w, p, depth, Kind::ClockManaged, 2, 1);
+            } else {
+                for kind in [Kind::Stop, Kind::ClockMovetime, Kind::ClockManaged] {
+                    fork_sweep(w, p, depth, kind, 1, 0);
+                }
+            }
         }
     }
     w.done()
